@@ -97,6 +97,13 @@ def main():
     sb = None
     try:
         sb = dhcplib.ErbiumSandbox("c17")
+        # the router has an IPv6 default route of its own, out of ANOTHER interface (an uplink): what an interface is told to
+        # advertise does not depend on that
+        for cmd in ("ip link add uplink0 type veth peer name uplink1", "ip link set uplink0 up", "ip link set uplink1 up",
+                    "ip -6 addr add fd99::1/64 dev uplink0 nodad",
+                    "ip -6 route add default via fd99::2 dev uplink0"):
+            base.sh(cmd, check=False)
+        leg.count("default_route_out_of_another_interface", 1 if "default" in base.sh("ip -6 route show default", check=False) else 0)
         with sb.cns:
             s = socket.socket(socket.AF_INET6, socket.SOCK_RAW, socket.IPPROTO_ICMPV6)
         s.setsockopt(socket.IPPROTO_IPV6, socket.IPV6_MULTICAST_HOPS, 255)
